@@ -1,0 +1,75 @@
+//go:build verif
+
+package geom
+
+// Exact postconditions for the small accessors of the seven concrete types
+// (C16/C20/C10 units): type tags, counts, member access, copies.  They pin
+// down behaviour the automatic safety contract is silent about.
+
+//@ prop C16,C20,C10
+
+//@ func Point.Type
+//@   ensures result == 1
+//@ func LineString.Type
+//@   ensures result == 2
+//@ func Polygon.Type
+//@   ensures result == 3
+//@ func MultiPoint.Type
+//@   ensures result == 4
+//@ func MultiLineString.Type
+//@   ensures result == 5
+//@ func MultiPolygon.Type
+//@   ensures result == 6
+//@ func GeometryCollection.Type
+//@   ensures result == 0
+
+//@ func Point.XY
+//@   ensures same(result0, p.coords.XY) && result1 == p.full
+//@ func Point.Coordinates
+//@   ensures same(result0, p.coords) && result1 == p.full
+//@ func Point.IsSimple
+//@   ensures result
+//@ func Point.Reverse
+//@   ensures same(result, p)
+//@ func Point.CoordinatesType
+//@   ensures result == p.coords.Type
+//@ func Point.Force2D
+//@   ensures result.coords.Type == 0 && result.full == p.full && (p.full ==> same(result.coords.XY, p.coords.XY))
+//@ func Point.AsMultiPoint
+//@   ensures len(result.points) == 1 && result.ctype == p.coords.Type && result.points[0].full == p.full && (p.full ==> same(result.points[0].coords.XY, p.coords.XY))
+
+//@ func LineString.Coordinates
+//@   ensures same(result, s.seq)
+//@ func LineString.Force2D
+//@   ensures result.seq.ctype == 0 && NPts(result.seq) == NPts(s.seq)
+
+//@ func Polygon.NumInteriorRings
+//@   ensures result == max(0, len(p.rings) - 1)
+//@ func Polygon.NumRings
+//@   ensures result == len(p.rings)
+//@ func Polygon.IsSimple
+//@   ensures result
+//@ func Polygon.DumpRings
+//@   ensures len(result) == len(p.rings) && fresh(result) && (forall k :: 0 <= k && k < len(p.rings) ==> same(result[k], p.rings[k]))
+//@ func Polygon.Force2D
+//@   ensures result.ctype == 0 && len(result.rings) == len(p.rings)
+
+//@ func MultiPoint.NumPoints
+//@   ensures result == len(m.points)
+//@ func MultiPoint.Reverse
+//@   ensures same(result, m)
+//@ func MultiPoint.Dump
+//@   ensures len(result) == len(m.points) && fresh(result) && (forall k :: 0 <= k && k < len(m.points) ==> same(result[k], m.points[k]))
+//@ func MultiPoint.Force2D
+//@   ensures result.ctype == 0 && len(result.points) == len(m.points)
+
+//@ func MultiLineString.NumLineStrings
+//@   ensures result == len(m.lines)
+//@ func MultiLineString.Force2D
+//@   ensures result.ctype == 0 && len(result.lines) == len(m.lines)
+//@ func MultiPolygon.NumPolygons
+//@   ensures result == len(m.polys)
+//@ func MultiPolygon.Force2D
+//@   ensures result.ctype == 0 && len(result.polys) == len(m.polys)
+//@ func GeometryCollection.NumGeometries
+//@   ensures result == len(c.geoms)
